@@ -147,6 +147,82 @@ def verus_scalar_units(plan):
     plan.assumptions.append("Verus: signed `/` is specified only for non-negative operands and signed `%` not at all; signed division/remainder with negative operands is decided by Kani for i8 only (quick) / where CBMC finishes (thorough)")
 
 
+def verus_loop_kernels(plan):
+    """(K) index-loop kernels over Vec<T>, proved for EVERY length (Verus): sub/div scalar forms, every
+    comparison and logic `_scalar_lhs_op`, `_scalar_rhs_op`, `_vec_op`."""
+    import vlib
+    from units import ktrans
+    from vlib import VerusUnit, verus_file, verus_canary, AnchorLost, inject_loop_specs
+    items, fns = [], {}
+    table = []
+    for op, path, sym in [("sub", "machines/math/src/ops/sub.rs", "-"), ("div", "machines/math/src/ops/div.rs", "/")]:
+        for kern in ("scalar_lhs", "scalar_rhs"):
+            for T in (["i64", "u8"] if op == "sub" else ["u64", "u8"]):
+                table.append((op, path, kern, sym, T, T, "arith"))
+    for op, path, sym in [("eq", "machines/compare/src/eq.rs", "=="), ("neq", "machines/compare/src/neq.rs", "!="), ("gt", "machines/compare/src/gt.rs", ">"),
+                          ("gte", "machines/compare/src/gte.rs", ">="), ("lt", "machines/compare/src/lt.rs", "<"), ("lte", "machines/compare/src/lte.rs", "<=")]:
+        for kern in ("scalar_lhs", "scalar_rhs", "vec"):
+            table.append((op, path, kern, sym, "i64", "bool", "cmp"))
+    for op, path, sym in [("and", "machines/logic/src/and.rs", "&&"), ("or", "machines/logic/src/or.rs", "||"), ("xor", "machines/logic/src/xor.rs", "^")]:
+        for kern in ("scalar_lhs", "scalar_rhs", "vec"):
+            table.append((op, path, kern, sym, "bool", "bool", "logic"))
+    for op, path, kern, sym, T, O, cls in table:
+        macro = "%s_%s_op" % (op, kern)
+        name = "C01.verus.%s.%s.%s" % (op, kern, T)
+        try:
+            body = ktrans.loop_kernel_body(vlib.extract_macro(vlib.read_repo(path), macro))
+        except AnchorLost as e:
+            plan.anchor_errors.append((name, str(e)))
+            continue
+        lv, rv = kern in ("scalar_lhs", "vec"), kern in ("scalar_rhs", "vec")
+        L = "lhs@[k]" if lv else "lhs"
+        R = "rhs@[k]" if rv else "rhs"
+        lt = ("&Vec<%s>" % T) if lv else T
+        rt = ("&Vec<%s>" % T) if rv else T
+        drive = "lhs" if lv else "rhs"
+        req = ["%s@.len() == old(out)@.len()" % drive]
+        if lv and rv:
+            req.append("rhs@.len() == lhs@.len()")
+        if cls == "arith":
+            if sym == "/":
+                req.append(("forall|k: int| 0 <= k < rhs@.len() ==> #[trigger] rhs@[k] != 0") if rv else "rhs != 0")
+                spec = "(%s as int) / (%s as int)" % (L, R)
+            else:
+                spec = "(%s as int) %s (%s as int)" % (L, sym, R)
+                req.append("forall|k: int| 0 <= k < %s@.len() ==> %s::MIN <= (#[trigger] %s@[k] as int) - (%s as int) <= %s::MAX" % (drive, T, drive, ("rhs" if lv else "lhs"), T)
+                           if lv else "forall|k: int| 0 <= k < rhs@.len() ==> %s::MIN <= (lhs as int) - (#[trigger] rhs@[k] as int) <= %s::MAX" % (T, T))
+            post = "(#[trigger] final(out)@[k] as int) == %s" % spec
+            inv_post = "(#[trigger] out@[k] as int) == %s" % spec
+        elif cls == "cmp":
+            post = "#[trigger] final(out)@[k] == (%s %s %s)" % (L, sym, R)
+            inv_post = "#[trigger] out@[k] == (%s %s %s)" % (L, sym, R)
+        else:
+            s2 = {"&&": "&&", "||": "||", "^": "!="}[sym]
+            post = "#[trigger] final(out)@[k] == (%s %s %s)" % (L, s2, R)
+            inv_post = "#[trigger] out@[k] == (%s %s %s)" % (L, s2, R)
+        inv = "        invariant out@.len() == n, iter.iter.end == n, i <= n, %s@.len() == n,%s\n          forall|k: int| 0 <= k < i ==> %s," % (
+            drive, (" rhs@.len() == n," if (lv and rv) else ""), inv_post)
+        # carry the per-element preconditions through the loop
+        carried = [r.replace("old(out)@", "out@") for r in req[1:] if "forall" in r or "rhs != 0" in r]
+        if carried:
+            inv += "\n          " + ",\n          ".join(carried) + ","
+        try:
+            body2 = inject_loop_specs(body, [inv], keyword=r"\bfor\b")
+        except AnchorLost as e:
+            plan.anchor_errors.append((name, str(e)))
+            continue
+        fn = "%s_%s" % (macro, T)
+        items.append("fn %s(lhs: %s, rhs: %s, out: &mut Vec<%s>)\n  requires %s,\n  ensures final(out)@.len() == old(out)@.len(),\n    forall|k: int| 0 <= k < final(out)@.len() ==> %s,\n{\n  let ghost n = out@.len();\n  %s\n}\n" % (
+            fn, lt, rt, O, ",\n    ".join(req), post, body2))
+        fns[fn] = name
+        plan.ob(name, "verus", "proved", functions=["%s! (kernel of the %s forms)" % (macro, {"scalar_lhs": "matrix∘scalar", "scalar_rhs": "scalar∘matrix", "vec": "same-form"}[kern])],
+                what="for EVERY length: out[k] == lhs[k] %s rhs[k] (scalar operand broadcast), length unchanged" % sym)
+    if fns:
+        items.append(verus_canary("canary_loops", "x: u64", []))
+        plan.verus.append(VerusUnit("c01_loop_kernels", verus_file(items), fns, ["canary_loops"]))
+        plan.dropped.append("(K) loop kernels: macro bodies of the index-loop kernels transcribed over Vec<T> with K1 (`unsafe{}` stripped), K2 (raw-pointer dereferences -> the operand), K3 (alias bindings inlined), `for i in 0..X.len()` -> `for i in iter: 0..X.len()`; linear indexing of nalgebra storage is ASSUMED to be Vec indexing (the Kani harnesses run the same macros on real nalgebra types)")
+
+
 def verus_shape_guards(plan):
     """(F) the shape-compatibility tests of the matrix-with-vector dispatch arms of impl_binop_match_arms!
     (src/core/src/stdlib.rs): accepted iff the vector is a column matching the rows or a row matching the columns."""
@@ -317,6 +393,10 @@ def plan(plan, tier, seed, prop="C01", selector=None, twice=None):
                               replay_entry=lambda h, p=prop.lower(): "vkreplay_%s_%s" % (p, h.split("_")[1])))
     if not only and prop == "C01":
         verus_scalar_units(plan)
+        try:
+            verus_loop_kernels(plan)
+        except Exception as e:
+            plan.anchor_errors.append(("C01.verus.loops", repr(e)))
         try:
             verus_shape_guards(plan)
         except Exception as e:
